@@ -5,6 +5,7 @@
 //!   C20 like|nlike|ilike|nilike|sw|ew|ct|eqi <var> <patterns> <haystacks>
 //!        (one pattern = broadcast; answer: one char per row, 0/1/n)
 //!   C20 rx <var> <regexes> <haystacks>            regexp_is_match / regexp_is_match_scalar
+//!   C20 rxf|rxmf <var> <flags> <regexes> <haystacks>   regexp_is_match / regexp_match with a per-row flags array
 //!   C20 substr <kind> <start> <len|N> <rows>      kind s0..s3 = Utf8/LargeUtf8/Utf8View/Dict, b0..b3 = Binary/LargeBinary/BinaryView/FixedSizeBinary
 //!   C20 substrc <var> <start> <len|N> <rows>      substring_by_char
 //!   C20 len|bitlen <kind> <rows>
@@ -1034,6 +1035,128 @@ fn run_case(line: &str) -> Out {
             }
             ans
         }
+        op @ ("rxf" | "rxmf") => {
+            // regexp_is_match / regexp_match with a PER-ROW flags array:
+            //   C20 rxf|rxmf <var> <flags> <patterns> <haystacks>      (flags row: hex text, `_` = "", `~` = null)
+            // row i must be matched with pattern_i under flags_i, independently of every other row
+            let var: usize = t[2].parse().unwrap();
+            let flags = parse_rows(t[3]);
+            let pats = parse_rows(t[4]);
+            let hays = parse_rows(t[5]);
+            let is_match = op == "rxf";
+            let run = |enc: usize, sliced: bool, fl: &[Row], pp: &[Row], hh: &[Row]| -> String {
+                let (fl, pp, hh) = (fl.to_vec(), pp.to_vec(), hh.to_vec());
+                guarded(move || {
+                    use arrow_string::regexp::*;
+                    let h = mk_str(&hh, enc, sliced);
+                    let ve = val_enc(enc);
+                    let p = mk_str(&pp, ve, !sliced);
+                    let f = mk_str(&fl, ve, false);
+                    if is_match {
+                        let r = match ve {
+                            0 => regexp_is_match(h.as_string::<i32>(), p.as_string::<i32>(), Some(f.as_string::<i32>())),
+                            1 => regexp_is_match(h.as_string::<i64>(), p.as_string::<i64>(), Some(f.as_string::<i64>())),
+                            _ => regexp_is_match(h.as_string_view(), p.as_string_view(), Some(f.as_string_view())),
+                        };
+                        match r {
+                            Ok(b) => show_tri(&bool_rows(&b)),
+                            Err(e) => err_class(&e),
+                        }
+                    } else {
+                        match regexp_match(h.as_ref(), &p, Some(&f as &dyn Datum)) {
+                            Ok(a) => {
+                                let l = a.as_list::<i32>();
+                                let rows: Vec<String> = (0..l.len())
+                                    .map(|i| {
+                                        if l.is_null(i) {
+                                            "~".to_string()
+                                        } else {
+                                            let v = bytes_rows(l.value(i).as_ref());
+                                            if v.is_empty() { "E".to_string() } else { v.iter().map(show_row_bytes).collect::<Vec<_>>().join("+") }
+                                        }
+                                    })
+                                    .collect();
+                                if rows.is_empty() { "-".to_string() } else { rows.join(",") }
+                            }
+                            Err(e) => err_class(&e),
+                        }
+                    }
+                })
+            };
+            let encs = [0usize, 1, 2, 5, 6, 7];
+            let enc = encs[var % 6];
+            let ans = run(enc, (var / 8) % 2 == 1, &flags, &pats, &hays);
+            tags.push_str(&format!(" enc:{}", ENC_NAMES[enc]));
+            // expected, row by row, each row compiled on its own with the regex engine
+            let n = hays.len();
+            let ok_shape = flags.len() == n && pats.len() == n;
+            let mut invalid = false;
+            let want: Vec<String> = (0..if ok_shape { n } else { 0 })
+                .map(|i| match (&pats[i], &hays[i]) {
+                    (Some(p), Some(h)) => {
+                        let cp = match &flags[i] {
+                            Some(f) => format!("(?{}){}", f, p),
+                            None => p.clone(),
+                        };
+                        if cp.is_empty() {
+                            return if is_match { "1".to_string() } else { "_".to_string() };
+                        }
+                        match regex::Regex::new(&cp) {
+                            Err(_) => {
+                                invalid = true;
+                                "~".to_string()
+                            }
+                            Ok(re) if is_match => (if re.is_match(h) { "1" } else { "0" }).to_string(),
+                            Ok(re) => match re.captures(h) {
+                                None => "~".to_string(),
+                                Some(caps) => {
+                                    let v: Vec<String> = caps.iter().skip(if caps.len() > 1 { 1 } else { 0 }).flatten().map(|m| show_row(&Some(m.as_str().to_string()))).collect();
+                                    if v.is_empty() { "E".to_string() } else { v.join("+") }
+                                }
+                            },
+                        }
+                    }
+                    _ => (if is_match { "n" } else { "~" }).to_string(),
+                })
+                .collect();
+            if ok_shape {
+                let want = if want.is_empty() { "-".to_string() } else if is_match { want.concat() } else { want.join(",") };
+                if invalid {
+                    tags.push_str(" err:invalid-regex-or-length");
+                    if ans != "ERR:compute" {
+                        oracle.push(format!("invalid regular expression in a row that must be evaluated: impl {} instead of an error", ans));
+                    }
+                } else if ans != want {
+                    oracle.push(format!("per-row flags: impl {} but matching every row on its own gives {}", ans, want));
+                }
+                // the same rows in reverse order must give the reversed answer (no history inside a batch)
+                if !invalid {
+                    let rev = |v: &[Row]| v.iter().rev().cloned().collect::<Vec<Row>>();
+                    let a2 = run(enc, false, &rev(&flags), &rev(&pats), &rev(&hays));
+                    let back: String = if is_match { a2.chars().rev().collect() } else { a2.split(',').rev().collect::<Vec<_>>().join(",") };
+                    if back != ans && !ans.starts_with("ERR") {
+                        oracle.push(format!("row order matters: forward {} but reversed rows give {}", ans, a2));
+                    }
+                }
+            }
+            for e2 in encs {
+                let a2 = run(e2, (e2 + var) % 2 == 0, &flags, &pats, &hays);
+                if a2 != ans {
+                    oracle.push(format!("encodings differ: {} gives {} but {} gives {}", ENC_NAMES[enc], ans, ENC_NAMES[e2], a2));
+                }
+            }
+            let distinct = |v: &[Row]| v.iter().collect::<std::collections::BTreeSet<_>>().len();
+            if distinct(&flags) > 1 {
+                tags.push_str(" flags:non-uniform");
+            }
+            if ok_shape && (0..n).any(|i| (0..i).any(|j| pats[i].is_some() && pats[i] == pats[j] && flags[i] != flags[j])) {
+                tags.push_str(" rx:same-pattern-different-flags nt");
+            }
+            if ok_shape && (0..n).any(|i| (0..i).any(|j| flags[i] == flags[j] && pats[i] != pats[j])) {
+                tags.push_str(" rx:same-flags-different-patterns");
+            }
+            ans
+        }
         "substr" => {
             let kind = t[2];
             let start: i64 = t[3].parse().unwrap();
@@ -1681,6 +1804,23 @@ impl Gen {
                     }
                 }
                 if rng.chance(1, 3) {
+                    // per-row flags, patterns repeated across rows
+                    let fl: Vec<Row> = (0..hays.len())
+                        .map(|_| match rng.below(8) {
+                            0 => None,
+                            1 | 2 => Some("i".to_string()),
+                            3 => Some("s".to_string()),
+                            4 => Some("m".to_string()),
+                            5 => Some("is".to_string()),
+                            6 => Some("im".to_string()),
+                            _ => Some("i".to_string()),
+                        })
+                        .collect();
+                    let base: Vec<Row> = pats.clone();
+                    let pp: Vec<Row> = (0..hays.len()).map(|i| if base.len() == 1 { base[0].clone() } else if rng.bool() { base[0].clone() } else { base[i].clone() }).collect();
+                    return format!("C20 {} {} {} {} {}", if rng.bool() { "rxf" } else { "rxmf" }, var, show_rows(&fl), show_rows(&pp), show_rows(&hays));
+                }
+                if rng.chance(1, 3) {
                     // regexp_match: add a capture group around a part of some pattern
                     let pats: Vec<Row> = pats.iter().map(|p| p.as_ref().map(|p| if p.len() > 1 && !p.starts_with('^') && rng.bool() { format!("({})", p) } else { p.clone() })).collect();
                     return format!("C20 rxm {} {} {}", var, show_rows(&pats), show_rows(&hays));
@@ -1934,6 +2074,59 @@ fn dense_cases() -> Vec<(String, &'static str)> {
         for var in [0usize, 1, 2, 3, 4, 5, 8, 9, 10, 32 + 8, 64 + 2, 96 + 9] {
             out.push((format!("C20 rxm {} {} {}", var + i % 2 * 4, show_row(&some(re)), rh), "dense:regexp"));
             out.push((format!("C20 rx {} {} {}", var + i % 2 * 4, show_row(&some(re)), rh), "dense:regexp"));
+        }
+    }
+    // ---- 8. per-row flags: the same pattern text under different flags in one batch (both orders),
+    //         the same flags with different patterns, null / empty flags; is_match and match
+    let fset: [Row; 6] = [some("i"), some("s"), some("m"), some("is"), None, some("")];
+    let pset: [(&str, [&str; 3]); 5] = [
+        ("^ar", ["ARROW", "arrow", "x\nar"]),
+        ("a.c", ["a\nc", "A\nC", "abc"]),
+        ("^b$", ["a\nb", "B", "b"]),
+        ("(K)(.)?", ["k\n", "K", "\u{212A}x"]),
+        ("\u{e9}.", ["\u{c9}\n", "\u{e9}a", "e"]),
+    ];
+    let mut w = 0usize;
+    for (p, hs) in pset.iter() {
+        // every ordered pair of flags on the same pattern and the same haystack
+        for (i, f1) in fset.iter().enumerate() {
+            for (j, f2) in fset.iter().enumerate() {
+                if i == j {
+                    continue;
+                }
+                for h in hs.iter() {
+                    w += 1;
+                    for op in ["rxf", "rxmf"] {
+                        out.push((format!("C20 {} {} {} {} {}", op, w % 16, show_rows(&[f1.clone(), f2.clone()]), show_rows(&[some(p), some(p)]), show_rows(&[some(h), some(h)])), "dense:regexp-row-flags"));
+                    }
+                }
+            }
+        }
+        // all flags at once (without the non-compiling empty flag), forward and rotated, with null rows in between
+        let f5: Vec<Row> = fset[..5].to_vec();
+        for rot in 0..5 {
+            let mut fl: Vec<Row> = f5.iter().cycle().skip(rot).take(5).cloned().collect();
+            let mut pp: Vec<Row> = vec![some(p); 5];
+            let mut hh: Vec<Row> = (0..5).map(|k| some(hs[(k + rot) % 3])).collect();
+            fl.insert(2, some("i"));
+            pp.insert(2, None);
+            hh.insert(2, some("x"));
+            fl.push(some("s"));
+            pp.push(some(p));
+            hh.push(None);
+            w += 1;
+            for op in ["rxf", "rxmf"] {
+                out.push((format!("C20 {} {} {} {} {}", op, w % 16, show_rows(&fl), show_rows(&pp), show_rows(&hh)), "dense:regexp-row-flags"));
+            }
+        }
+    }
+    // the same flags with different (and repeated) patterns
+    for f in fset[..5].iter() {
+        let pp: Vec<Row> = vec![some("^ar"), some("a.c"), some("^ar"), some("^b$"), some("a.c"), some("^AR")];
+        let hh: Vec<Row> = vec![some("ARROW"), some("a\nc"), some("arrow"), some("x\nb"), some("ABC"), some("arrow")];
+        w += 1;
+        for op in ["rxf", "rxmf"] {
+            out.push((format!("C20 {} {} {} {} {}", op, w % 16, show_rows(&vec![f.clone(); 6]), show_rows(&pp), show_rows(&hh)), "dense:regexp-row-flags"));
         }
     }
     out.push((format!("C20 rxm 8 ~ {}", rh), "dense:regexp"));
